@@ -168,7 +168,7 @@ class Database(MutableMapping):
         self._change_callbacks.add(callback)
 
     def remove_change_callback(self, callback):
-        self._change_callbacks.remove(callback)
+        self._change_callbacks.discard(callback)
 
     def clear(self):
         for key in self:
